@@ -104,6 +104,8 @@ def run(ctx):
             ctx.fail("correspondence", "one Newton update of the e-beam solver differs from Radial.step", inp=dict(desc, one_step=True))
         # ---- static variants
         rho0 = np.where(r <= r_e, -cur / (np.sqrt(2 * Q_E * e / M_E) * PI * r_e ** 2), 0.0)
+        if k % 2:   # static background that reaches the wall node (halo / residual fill): the boundary condition must still hold
+            rho0 = rho0 + rho0[0] * float(10 ** rng.uniform(-6, -4)) * (1 + 0.3 * np.cos(np.arange(ng)))
         for variant, f in (("linear", rd.boltzmann_radial_potential_linear_density), ("onaxis", rd.boltzmann_radial_potential_onaxis_density)):
             dens = nl if variant == "linear" else nl / (PI * r_e ** 2) * 0.3
             impl = f(r, rho0, col(dens), col(kT), col(q))
@@ -122,13 +124,13 @@ def run(ctx):
                         break
             if not okc:
                 ctx.fail("correspondence", f"boltzmann_radial_potential_{variant}_density differs from Radial.bpStatic ({model[0]} passes)", inp=dict(desc, variant=variant, rho0=rho0, dens=dens))
-        # ---- heat capacity
-        qq, kk = float(q[rng.integers(ns)]), float(kT[rng.integers(ns)])
-        cv = float(rd.heat_capacity(r, phi_eb, qq, kk))
-        mcv = unbits(D.ask("cv " + farr(r) + " " + farr(phi_eb) + f" {bits(qq)} {bits(kk)}")[0])
-        ctx.evaluations += 1
-        if not (abs(cv - mcv) <= 1e-9 * abs(cv) or (np.isnan(cv) and np.isnan(mcv))):
-            ctx.fail("correspondence", f"heat_capacity = {cv!r} but Radial.heatCapacity = {mcv!r}", inp={"op": "cv", "r": r, "phi": phi_eb, "q": qq, "kT": kk})
+        # ---- heat capacity: a species of the case, a neutral, hot light ions, cold highly charged ions deep in the well
+        for qq, kk in ((float(q[rng.integers(ns)]), float(kT[rng.integers(ns)])), (0.0, 3.0), (2.0, 900.0), (float(rng.integers(15, 41)), float(10 ** rng.uniform(0.3, 1.5)))):
+            cv = float(rd.heat_capacity(r, phi_eb, qq, kk))
+            mcv = unbits(D.ask("cv " + farr(r) + " " + farr(phi_eb) + f" {bits(qq)} {bits(kk)}")[0])
+            ctx.evaluations += 1
+            if not (abs(cv - mcv) <= 1e-9 * abs(cv) or (np.isnan(cv) and np.isnan(mcv))):
+                ctx.fail("correspondence", f"heat_capacity(q={qq}, kT={kk}) = {cv!r} but Radial.heatCapacity = {mcv!r}", inp={"op": "cv", "r": r, "phi": phi_eb, "q": qq, "kT": kk})
         if k == 0:
             ctx.sample({"variant": "ebeam", "current": cur, "e_kin": e, "r_e": r_e, "n_grid": ng, "q": q.tolist(), "rel_diff": rel, "phi_axis": float(impl[0][0]), "passes_model": model[0]})
     ctx.cov["borderline_stopping_decisions"] = border
@@ -183,6 +185,11 @@ def search(ctx):
     cases = []
     for f in ctx.failures:
         inp = f.get("input") or {}
+        if inp.get("op") == "cv":
+            rr_, pp_ = np.asarray(inp["r"], float), np.asarray(inp["phi"], float)
+            cvv = float(rd.heat_capacity(rr_, pp_, float(inp["q"]), float(inp["kT"])))
+            if (not np.isfinite(cvv) and np.all(pp_ >= pp_[0])) or cvv < 1.5 - 1e-9:
+                add("heat_capacity_min", f"heat_capacity(q={inp['q']}, kT={inp['kT']}) = {cvv!r} (must be finite and >= 3/2)", {"variant": "cv", "r": rr_, "phi": pp_, "hq": inp["q"], "hkT": inp["kT"]})
         if "cur" in inp:
             cases.append((float(inp["cur"]), float(inp["e_kin"]), float(inp["r_e"]), np.asarray(inp["r"], float), np.asarray(inp["nl"], float), np.asarray(inp["kT"], float), np.asarray(inp["q"], float), float(inp.get("rel_diff", 1e-6))))
     for _ in range(24 if (ctx.thorough or ctx.failures) else 5):
@@ -204,6 +211,7 @@ def search(ctx):
         if np.any((q > 0) & (nl > 0)) and (phi < free - 1e-6 * np.abs(free).max() - 10 * rel * np.abs(free).max()).any():
             add("ions_raise_potential", f"adding positive ions lowers the potential by {np.max(free - phi):.3e}", desc)
         rho0 = np.where(r <= r_e, -cur / (np.sqrt(2 * Q_E * e / M_E) * PI * r_e ** 2), 0.0)
+        rho0 = rho0 + rho0[0] * 1e-5 * (1 + 0.3 * np.cos(np.arange(r.size)))     # a faint halo that reaches the wall node
         rho_ = rho0.copy(); rho_[-1] = 0
         for variant, f in (("linear", rd.boltzmann_radial_potential_linear_density), ("onaxis", rd.boltzmann_radial_potential_onaxis_density)):
             dens = nl if variant == "linear" else nl / (PI * r_e ** 2) * 0.3
@@ -214,9 +222,12 @@ def search(ctx):
                 if clause != "self_consistent":
                     add(clause, f"{variant} solver: " + what, dict(desc, variant=variant))
         # heat capacity
-        for qq, kk in ((0.0, 10.0), (float(max(q.max(), 1)), float(kT.max())), (3.0, 0.5)):
+        for qq, kk in ((0.0, 10.0), (float(max(q.max(), 1)), float(kT.max())), (3.0, 0.5), (30.0, 4.0), (20.0, 50.0)):
             cv = float(rd.heat_capacity(r, phi, qq, kk))
             if not np.isfinite(cv):
+                # exp(-q (phi - phi[0]) / kT) <= 1 whenever phi >= phi[0]: nothing may overflow then
+                if np.all(phi >= phi[0]):
+                    add("heat_capacity_finite", f"heat_capacity(q={qq}, kT={kk}) = {cv!r} on a potential with its minimum on the axis", dict(desc, hq=qq, hkT=kk))
                 continue
             if cv < 1.5 - 1e-9 or (qq == 0 and cv != 1.5):
                 add("heat_capacity_min", f"heat_capacity(q={qq}, kT={kk}) = {cv!r}", dict(desc, hq=qq, hkT=kk))
